@@ -3,7 +3,7 @@
 rev=""
 if [ "$1" = "-R" ]; then rev="-R"; shift; fi
 patch="$1"; tier="$2"; shift 2
-V=/tmp/v2; R=/tmp/mut/repo2
+V=${V:-/tmp/v2}; R=${R:-/tmp/mut/repo2}
 cd $R || exit 2
 git checkout -q -- .
 git apply $rev "$patch" || { echo "patch does not apply"; exit 2; }
